@@ -16,6 +16,7 @@ import (
 	"bytes"
 	"fmt"
 	"path/filepath"
+	"strconv"
 	"strings"
 	stdtime "time"
 
@@ -30,6 +31,7 @@ type c08Conn struct {
 }
 
 type c08Params struct {
+	Pre     [][]string `json:"pre,omitempty"`
 	Conns   []c08Conn `json:"conns"`
 	Flusher bool      `json:"flusher"`
 	Spin    bool      `json:"spinlock"`
@@ -62,6 +64,18 @@ func c08Run(job *Job, p c08Params, prefix []int) (out schedOut) {
 		clis := make([]*Cli, n)
 		acked := make([]int, n)   // replies seen so far per connection
 		early := []string{}
+		if len(p.Pre) > 0 {
+			c0 := x.Dial(in.Addr)
+			for _, cmd := range p.Pre {
+				if cmd[0] == "@BIG" { // SET key id STRING <n bytes>
+					n, _ := strconv.Atoi(cmd[3])
+					c0.Do("SET", cmd[1], cmd[2], "STRING", strings.Repeat("x", n))
+				} else {
+					c0.Do(cmd...)
+				}
+			}
+			c0.Close()
+		}
 		for i := range clis {
 			clis[i] = x.Dial(in.Addr)
 		}
@@ -148,6 +162,13 @@ func c08Run(job *Job, p c08Params, prefix []int) (out schedOut) {
 		out.Obs = strings.Join(order, ",")
 		if len(early) > 0 {
 			out.VSig = "C08/ack-before-log"
+			for _, cn := range p.Conns {
+				for _, cmd := range cn.Cmds {
+					if u := strings.ToUpper(cmd[0]); u == "SUBSCRIBE" || u == "PSUBSCRIBE" || (len(cmd) > 2 && strings.ToUpper(cmd[2]) == "FENCE") {
+						out.VSig = "C08/ack-before-log:pipeline-ending-in-stream-command"
+					}
+				}
+			}
 			out.VDetail = strings.Join(early, "; ")
 			out.Obs += "|EARLY"
 		}
@@ -182,6 +203,14 @@ func c08Scenarios(tier string) (scs []c08Params, bound int) {
 		{Conns: []c08Conn{{Cmds: [][]string{eval("a")}}, {Cmds: [][]string{set("b")}}}},
 		{Conns: []c08Conn{{Cmds: [][]string{set("a")}}, {Cmds: [][]string{set("b")}}}, Flusher: true},
 	}
+	// a pipelined segment that ends in a command which switches the connection to a
+	// stream: the replies of the earlier commands are written on the detach path
+	scs = append(scs,
+		c08Params{Conns: []c08Conn{{Cmds: [][]string{set("a"), {"NEARBY", "k", "FENCE", "POINT", "1", "1", "1000"}}}, {Cmds: [][]string{get}}}},
+		c08Params{Conns: []c08Conn{{Cmds: [][]string{set("a"), {"SUBSCRIBE", "ch"}}}, {Cmds: [][]string{set("b")}}}},
+	)
+	// a write followed, in the same segment, by a read whose reply is larger than 4 MiB
+	scs = append(scs, c08Params{Pre: [][]string{{"@BIG", "kb", "big", "4300000"}}, Conns: []c08Conn{{Cmds: [][]string{set("a"), {"GET", "kb", "big"}}}, {Cmds: [][]string{get}}}})
 	if tier == "thorough" {
 		scs = append(scs,
 			c08Params{Conns: []c08Conn{{Cmds: [][]string{set("a"), set("c")}}, {Cmds: [][]string{set("b")}}}},
